@@ -39,11 +39,14 @@ type Dir struct {
 }
 
 func New(opts Options) *Dir {
+	// A trailing separator ("/var/run/creds/") would make filepath.Dir return the
+	// target itself and put "<target>.new" inside it.
+	target := filepath.Clean(opts.Target)
 	return &Dir{
 		log:       opts.Log,
-		base:      filepath.Dir(opts.Target),
-		target:    opts.Target,
-		targetDir: filepath.Base(opts.Target),
+		base:      filepath.Dir(target),
+		target:    target,
+		targetDir: filepath.Base(target),
 	}
 }
 
